@@ -161,7 +161,11 @@ def main(argv=None):
         suffix = "" if kind in ("input", "static") else " no-failing-input-found"
         lines.append(f"VIOLATION property={pid} replay={path}{suffix}")
         rc = 1
+    seen_kf = set()
     for kf, fail in known_hits:
+        if id(kf) in seen_kf:
+            continue
+        seen_kf.add(id(kf))
         lines.append(f"KNOWN-FINDING: property={pid} {kf.get('what', '')} [{kf.get('witness', '')}]")
     if crashes or unsound:
         for r in crashes:
@@ -176,7 +180,9 @@ def main(argv=None):
         print("no obligations generated and no bounded run: nothing decided")
         rc = 3 if rc == 0 else rc
 
-    level = "proof" if (n_obl > 0 and n_obl == n_dis and not degraded and rc == 0 and not known_hits) else "other"
+    claimed = next((c.get("level_claimed", {}).get("category") for c in load_json(os.path.join(VERIF, "MANIFEST.json"), {}).get("checks", []) if c.get("property_id") == pid), "other")
+    # 'proof' only for properties whose decisive clauses are deductive (MANIFEST claim) AND when every obligation of this run is discharged
+    level = "proof" if (claimed == "proof" and n_obl > 0 and n_obl == n_dis and not degraded and rc == 0 and not known_hits) else "other"
     ev = {
         "property_id": pid, "tier": tier, "seed": seed, "level": level, "wall_s": round(time.time() - t0, 2),
         "violations": len(violations),
